@@ -227,8 +227,13 @@ func opLA(f []string) string {
 	if res != "ok" {
 		return res
 	}
+	// the cpu-dispatching entry point must agree with EncodeLA64
+	disp := "cpu-dispatch-ok"
+	if w2, res2 := encResult(func() (uint32, error) { return loong64.Encode(abi.LOONG64, abi.As(row.As), arg) }); res2 != "ok" || w2 != w {
+		disp = "cpu-dispatch-differs"
+	}
 	// raw abi.RegType numbers on both sides: slots holding plain numbers (code, hint, msb...) have no register class
-	return fmt.Sprintf("ok %08x | %s | I %d %d %d %d", w, laDecode(w), regs[0], regs[1], regs[2], regs[3])
+	return fmt.Sprintf("ok %08x | %s | I %d %d %d %d | %s", w, laDecode(w), regs[0], regs[1], regs[2], regs[3], disp)
 }
 
 func laDecode(w uint32) string {
